@@ -268,7 +268,8 @@ class Program:
         self.consts_inlined = inline_new_constants(self)
         from .renames import undo_renames
         self.renamed_back = undo_renames(self)
-        from .params import canonical_params, specialise_new_defaults
+        from .params import canonical_params, specialise_new_defaults, restore_self
+        self.restored_self = restore_self(self)
         self.params_specialised = specialise_new_defaults(self)
         self.params_renamed = canonical_params(self)
         self.wrapper_decorators = {}
